@@ -134,3 +134,31 @@ Definition check_guard (c : case) : bool :=
   | CHist p drop _ steps _ => forallb (fun s => guard_C03_function_zero p (env_of (fst s)) drop) steps
   | CCrash => true
   end.
+
+(* ---- classification of a case rejected by check_spec as the known finding (harness `classify`; NOT part of the
+   verdict, so it may use the model).  Round 5: the guard alone is not enough (any other violation on an input of the
+   guarded class would be filed under the finding, and the check does not look at check_corr for such a case):
+   the case is the known finding iff
+     * the implementation does exactly what the faithful model -- which exhibits the finding -- does (check_corr), and
+     * every clause of check_spec holds except clause (d) for assignments on which the guard is false, a needed value
+       is missing and a result (program / None) was returned. ---- *)
+Definition finding_form (p : pt) (drop : list ident) (values : list (ident * Q)) (out : outcome) : bool :=
+  negb (guard_C03_function_zero p (env_of values) drop) && negb (none_missing p (env_of values) drop)
+  && (outcome_eqb out OProg || outcome_eqb out ONone).
+Definition spec_one_k (p : pt) (drop : list ident) (names : list ident) (values : list (ident * Q)) (out : outcome) : bool :=
+  finding_form p drop values out || spec_one p drop names values out.
+
+Definition check_known (c : case) : bool :=
+  check_corr c &&
+  match c with
+  | CCase p drop names values out values2 out2 same =>
+      spec_one_k p drop names values out
+      && spec_one_k p drop names values2 out2
+      && (if agree_on names values values2 then outcome_eqb out out2 && same else true)
+  | CHist p drop names steps same =>
+      forallb (fun s => spec_one_k p drop names (fst s) (snd s)) steps
+      && forallb (fun s1 => forallb (fun s2 => if agree_on names (fst s1) (fst s2)
+                                               then outcome_eqb (snd s1) (snd s2) else true) steps) steps
+      && same
+  | CCrash => false
+  end.
